@@ -41,6 +41,7 @@ def build(tier, seed):
     tasks.append(Task(f"{PROP}.S.casefold", PROP, "keyword tests on captured text", lambda: casefold.obligations(PROP, "ford.sourceform", _replay)))
     tasks.append(Task(f"{PROP}.S.casefold.names", PROP, "comparisons of entity names", lambda: casefold.name_obligations(PROP, replay=_replay)))
     tasks.append(Task(f"{PROP}.S.casefold.attribs", PROP, "attribute membership tests", lambda: casefold.attribute_obligations(PROP, replay=_replay)))
+    tasks.append(Task(f"{PROP}.S.casefold.flow", PROP, "keyword tests on local names", lambda: casefold.flow_obligations(PROP, replay=_replay)))
     tasks.append(Task(f"{PROP}.S.casefold.prefix", PROP, "keyword prefix tests", lambda: casefold.prefix_obligations(PROP, replay=_replay)))
     tasks.append(Task(f"{PROP}.S.operands", PROP, "operand list splitting", lambda: operands.obligations(PROP, _replay)))
     def _defaults():
